@@ -602,6 +602,26 @@ rule("D14.question_mark_parse",
      "( match shim_parse_i64_full ( v [ 1 ] ) { Ok ( __v ) => __v , Err ( __e ) => return Err ( From :: from ( __e ) ) } )",
      "`EXPR?` with an error conversion written out (definition of `?`), for the two integer fields")
 
+rule("D6.io_invalid_data_tc",
+     "io :: Error :: new ( io :: ErrorKind :: InvalidData , $e:id , )",
+     "shim_io_invalid_data ( $e )",
+     "same as D6.io_invalid_data, call written with a trailing comma")
+
+rule("D6.io_invalid_data",
+     "io :: Error :: new ( io :: ErrorKind :: InvalidData , $e:id )",
+     "shim_io_invalid_data ( $e )",
+     "io::Error::new(InvalidData, payload): an io::Error of kind InvalidData (the payload is not modelled; the shim body drops it)")
+
+rule("D6.rfind_lit",
+     "$recv . rfind ( $l:str )",
+     "shim_rfind_str ( $recv , $l )",
+     "str::rfind(&str literal): byte index of the last occurrence")
+
+rule("D6.split_terminator_lit",
+     "$recv . split_terminator ( $l:str )",
+     "shim_split_terminator ( $recv , $l )",
+     "str::split_terminator(&str literal) collected into a Vec<&str>")
+
 rule("D6.take_digits",
      "$recv . chars ( ) . take_while ( char :: is_ascii_digit ) . collect ( )",
      "shim_take_ascii_digits ( $recv )",
